@@ -31,11 +31,12 @@ Fixpoint script_loop (forks funcs : list N) (tasks : list task) (l : list (nat *
       match r_type r with
       | LOST => script_loop forks funcs tasks tl g1        (* "Do nothing as of now" *)
       | ENTRY =>
-          (* fstack_entry (fork fix-up), depth = display depth, fstack_update(ENTRY), then the filter *)
+          (* fstack_entry (fix-ups for fork / exec / setjmp / longjmp symbols); depth = the display depth
+             BEFORE fstack_update(ENTRY) moves it (to 0 for exec, to the setjmp depth for longjmp); then the filter *)
           let depth := if pend then t_sc ts1 - 1 else t_dd ts1 in
-          let ts2 := if existsb (N.eqb (r_addr r)) forks then set_fork ts1 (depth + 1) else ts1 in
+          let '(ts2, sj) := fixup_entry (mkcfg false forks) r depth ts1 (g_sjd g1, g_sjc g1) in
           (if match_funcs funcs (r_addr r) then [CEntry i depth (r_time r) (r_addr r) (r_addr r)] else [])
-            ++ script_loop forks funcs tasks tl (tset g1 i (set_dd ts2 (depth + 1)))
+            ++ script_loop forks funcs tasks tl (tset (set_sj g1 sj) i (update_entry r depth ts2 sj))
       | EXIT =>
           let f := fget (t_stack ts1) (t_sc ts1) in
           let depth := if pend then t_sc ts1 else N.pred (t_dd ts1) in       (* fstack_update(EXIT) *)
@@ -100,6 +101,22 @@ Definition ok_script (funcs : list N) (cbs : list callback) (replay_lines : list
   | Some inner =>
       forallb inner_ok inner &&
       cbs_vs_events inner (filter (fun e => match_funcs funcs (e_name e)) (events_of replay_lines))
+  | None => false
+  end.
+
+(* arguments and return values.  Both views decode the payload of the SAME record (C18_same_calls
+   pairs the k-th callback with the k-th replay line: same task, same timestamp, same kind); what a
+   payload decodes to is C09's subject.  The tie compares, callback by line, the text of the argument
+   list / return value the script received with the text replay prints; texts are opaque tokens here,
+   carried in the address field.  Durations: replay prints print_time_unit codes. *)
+Definition fmt_cb (c : callback) : callback :=
+  match c with
+  | CExit i d t u a n => CExit i d t (fmt_time u) a n
+  | _ => c
+  end.
+Definition ok_script_args (script_cbs replay_cbs : list callback) : bool :=
+  match strip_begin_end script_cbs with
+  | Some inner => forallb inner_ok inner && list_eqb cb_eqb (map fmt_cb inner) replay_cbs
   | None => false
   end.
 
